@@ -23,12 +23,15 @@ RULE = ("random include trees cut out of generated documents at line boundaries:
 EVAL_KEY = "loads_judged"
 DISTINCT_KEY = "cases"
 NSHARDS = {"quick": 8, "thorough": 16}
-FLOORS = {"quick": {"loads_judged": 400, "open_event_checks": 200, "depth_boundary_cases": 50, "no_expand_cases": 80, "missing_file_cases": 25},
-          "thorough": {"loads_judged": 12000, "open_event_checks": 7000, "depth_boundary_cases": 2000, "no_expand_cases": 2500,
+FLOORS = {"quick": {"loads_judged": 400, "open_event_checks": 200, "depth_boundary_cases": 50, "no_expand_cases": 80, "no_expand_self_contained_judged": 80,
+                    "no_expand_write_back_judged": 50, "missing_file_cases": 25},
+          "thorough": {"loads_judged": 12000, "open_event_checks": 7000, "depth_boundary_cases": 2000, "no_expand_cases": 2500, "no_expand_self_contained_judged": 2500, "no_expand_write_back_judged": 1500,
                        "missing_file_cases": 700}}
 ASSUMPTIONS = ["flatten() substitutes over the generator's own tree (it never re-scans text)", "audit 'open' events are complete for builtins.open / io.open"]
-DOMAIN = ["file names without spaces or '#'; INCLUDE directives on their own line outside strings and comments; no multi-line strings in cut documents",
-          "with expand_includes=False the directives sit inside blocks (a directive outside any block is not Mapfile data)"]
+DOMAIN = ["file names without spaces or '#'; INCLUDE directives on their own line outside strings and comments (documents with strings running over several lines are cut between statements only)",
+          "with expand_includes=False the directives sit inside object blocks (a directive outside any block is not Mapfile data) and the root is "
+          "a complete document on its own (directives stand for whole statements / whole blocks); write-back is judged for dictionaries without "
+          "the quote character or a backslash in a string (C01's domain)"]
 
 
 class File:
@@ -127,6 +130,96 @@ def height(f):
     return max_depth(f, 0)
 
 
+def logical_lines(text):
+    """The text cut at line ends that lie outside every token: a quoted string (or expression) running over several lines stays
+    in one entry, so a cut never falls inside a string.  None when a continuation line could be mistaken for a directive."""
+    from .. import reader
+    try:
+        toks = reader.scan(text, keep_comments=True)
+    except reader.ScanError:
+        return None
+    inside = set()  # offsets of line feeds inside a token
+    for t in toks:
+        if "\n" in t.text and t.kind != "comment":
+            inside.update(t.start + i for i, c in enumerate(t.text) if c == "\n")
+    out, cur = [], []
+    for i, c in enumerate(text):
+        if c == "\n" and i not in inside:
+            out.append("".join(cur))
+            cur = []
+        else:
+            cur.append(c)
+    out.append("".join(cur))
+    out = [l for l in out if l.strip()]
+    for l in out:
+        for cont in l.split("\n")[1:]:
+            if cont.strip().lower().startswith("include"):
+                return None
+    return out
+
+
+def balanced(lines):
+    """True when the statements open and close their own blocks only (in the 'lines' layout a block opener is a line holding
+    one bare word, and END stands alone)."""
+    import re
+    depth = 0
+    for l in lines:
+        w = l.strip()
+        if w.upper() == "END":
+            depth -= 1
+            if depth < 0:
+                return False
+        elif re.fullmatch(r"[A-Za-z_]+", w):
+            depth += 1
+    return depth == 0
+
+
+NO_DIRECTIVE_PARENTS = {"METADATA", "VALIDATION", "VALUES", "CONNECTIONOPTIONS", "PATTERN", "POINTS", "PROJECTION"}
+
+
+def balanced_cuts(r, lines, k):
+    """Replace up to k ranges of whole statements / whole blocks inside object blocks by INCLUDE directives.
+    Returns (entries, [(name, style)]) - what remains is a complete document on its own."""
+    import re
+    n = len(lines)
+    parents = []
+    owner = []
+    stack = []
+    for li, l in enumerate(lines):
+        w = l.strip()
+        parents.append(stack[-1][0] if stack else None)
+        owner.append(stack[-1][1] if stack else None)
+        if w.upper() == "END":
+            if stack:
+                stack.pop()
+        elif re.fullmatch(r"[A-Za-z_]+", w):
+            stack.append((w.upper(), li))
+    out = []
+    incs = []
+    i = 1
+    starts = sorted(r.sample(range(1, max(2, n - 1)), min(k, max(0, n - 2))))
+    pos = 0
+    for st in starts:
+        if st < pos or st < 1 or parents[st] is None or parents[st] in NO_DIRECTIVE_PARENTS:
+            continue
+        # extend to a balanced range that stays inside the same parent block
+        ends = [e for e in range(st, min(n - 1, st + 12) + 1) if balanced(lines[st:e])]
+        if not ends:
+            continue
+        en = r.choice(ends)
+        out.extend(lines[pos:st])
+        rel = r.choice(["", "inc/", "a.b/"]) + r.choice(["part", "layer", "x-y", "UPPER", "Mixed.Case"]) + str(len(incs)) + r.choice([".map", ".inc", ""])
+        tgt = File(rel, 1)
+        tgt.entries = lines[st:en]
+        inc = Inc(tgt, rand_style(r))
+        inc.owner = owner[st]  # line number of the opener of the object the directive sits in
+        out.append(inc)
+        incs.append(inc)
+        pos = en
+    out.extend(lines[pos:])
+    return out, incs
+
+
 def dfs(f, d=0, out=None):
     out = [] if out is None else out
     out.append((f, d))
@@ -201,12 +294,18 @@ def _run(ctx, base):
         os.makedirs(c, exist_ok=True)
     n = ctx.n(160, 6000)
     for j in range(n):
+        # every third tree is cut out of a document with strings that run over several lines (cuts only between statements, so
+        # an included file may begin with a line that ends inside a string)
+        gen.MULTILINE[0] = (j % 3 == 0)
         nodes = gen.gen_document(r, gen.GenOpts(gated=ctx.gated, p_key=r.choice([0.3, 0.5]), dup=0.0),
                                  root=r.choice(["map", "map", "layer", "class"]))
+        gen.MULTILINE[0] = False
         text = render.render(nodes[:1], render.Surface(layout="lines", indent=r.choice(["  ", "\t"]))).text
-        lines = [l for l in text.split("\n") if l.strip()]
-        if len(lines) < 3:
+        lines = logical_lines(text)
+        if lines is None or len(lines) < 3:
             continue
+        if any("\n" in l for l in lines):
+            res.count("trees_with_multi_line_strings")
         D = r.choice([0, 1, 1, 2, 3, 4, 5, 5, 5, 6, 6, 7])
         # the opener and the final END stay in the root file so that every directive sits inside a block
         tg = TreeGen(r)
@@ -315,11 +414,17 @@ def _run(ctx, base):
         if depth >= 1:
             os.chdir(r.choice(cwds))
             res.count("no_expand_cases")
+            # a root whose blocks are opened or closed inside an include file is a different document without expansion (it may
+            # not parse, or parse with the directive inside a block that a later block of the same kind replaces) - not judged
+            self_contained = all(balanced(flatten(e.target)) for e in root.entries if isinstance(e, Inc))
             try:
-                d = mappyfile.open(root_path, expand_includes=False)
+                d = mappyfile.open(root_path, expand_includes=False) if self_contained else None
+                if d is None:
+                    res.count("no_expand_root_not_self_contained")
             except Exception as ex:
-                # a root whose blocks are closed inside an include file cannot be parsed without expansion - not judged
-                res.count("no_expand_root_not_self_contained")
+                res.violation("no-expand-self-contained-root-not-loaded", {"via": "open(expand_includes=False)", "root": root_path, "depth": depth,
+                              "includes": ninc, "root_text": "\n".join(e.line(rootdir) if isinstance(e, Inc) else e for e in root.entries)[:6000]},
+                              f"{type(ex).__name__}: {str(ex)[:300]}", "a dictionary")
                 d = None
             if d is not None:
                 names = []
@@ -354,7 +459,8 @@ def _run(ctx, base):
                     res.count("no_expand_gated:include-inside-key-value-block")
                     d = None
             if d is not None:
-                case = {"via": "open(expand_includes=False)", "root": root_path, "depth": depth, "includes": ninc}
+                case = {"via": "open(expand_includes=False)", "root": root_path, "depth": depth, "includes": ninc,
+                        "root_text": "\n".join(e.line(rootdir) if isinstance(e, Inc) else e for e in root.entries)[:6000]}
                 if sorted(names) != sorted(want_names):
                     res.violation("no-expand-loses-or-alters-directive", case, names, want_names)
                 else:
@@ -363,6 +469,83 @@ def _run(ctx, base):
                         if f'INCLUDE "{nm}"' not in out_text:
                             res.violation("no-expand-directive-not-written-back", dict(case, out=out_text[:2000]), nm, None)
                             break
+        # expand_includes=False on a root that is complete on its own (directives replace whole statements / blocks inside object blocks):
+        # the directives are data (kept in order, everything else as if the lines were absent) and are written back
+        ents, incs = balanced_cuts(r, lines, r.randint(1, 4))
+        if incs:
+            res.count("no_expand_cases")
+            res.count("no_expand_self_contained_judged")
+            rt = "\n".join(e.line(rootdir) if isinstance(e, Inc) else e for e in ents)
+            bare = "\n".join(e for e in ents if not isinstance(e, Inc))
+            want_names = [os.path.join(rootdir, e.target.rel) if e.style["abs"] else e.target.rel for e in incs]
+            by_owner = {}
+            for e, nm in zip(incs, want_names):
+                by_owner.setdefault(e.owner, []).append(nm)
+            want_groups = sorted(tuple(v) for v in by_owner.values())
+            case = {"via": "loads(expand_includes=False)", "root": None, "depth": 1, "includes": len(incs), "root_text": rt[:6000]}
+            viaf = r.choice(["loads", "open"])
+            try:
+                if viaf == "open":
+                    fn = os.path.join(rootdir, "noexpand.map")
+                    with open(fn, "w", encoding="utf-8", newline="") as fh:
+                        fh.write(rt)
+                    d = mappyfile.open(fn, expand_includes=False)
+                else:
+                    d = mappyfile.loads(rt, expand_includes=False)
+                ref = eng.loads(bare)
+            except Exception as ex:
+                res.violation("no-expand-self-contained-root-not-loaded", case, f"{type(ex).__name__}: {str(ex)[:300]}", "a dictionary")
+                d = None
+            if d is not None:
+                names = []
+                groups = []
+
+                def strip_inc(x):
+                    if isinstance(x, dict):
+                        o = {}
+                        for k, v in x.items():
+                            if k == "include":
+                                names.extend(v if isinstance(v, list) else [v])
+                                groups.append(tuple(v) if isinstance(v, list) else (v,))
+                            else:
+                                o[k] = strip_inc(v)
+                        return o
+                    if isinstance(x, list):
+                        return [strip_inc(v) for v in x]
+                    return x
+                rest = core.plain(strip_inc(d))
+                got_groups = sorted(groups)
+                groups = []
+                from .. import relations
+                printable = not (relations.contains_quote(d, '"') or relations.has_backslash(d))
+                # each object keeps its own directives, in the order written
+                if got_groups != want_groups:
+                    res.violation("no-expand-loses-or-alters-directive", case, got_groups, want_groups)
+                elif rest != core.plain(strip_inc(ref)):
+                    res.violation("no-expand-changes-other-content", case, core.first_diff(core.plain(strip_inc(ref)), rest), None)
+                elif not printable:
+                    res.count("no_expand_write_back_skipped:quote-or-backslash-in-a-string")
+                else:
+                    res.count("no_expand_write_back_judged")
+                    try:
+                        out_text = mappyfile.dumps(d)
+                        back = mappyfile.loads(out_text, expand_includes=False)
+                    except Exception as ex:
+                        res.violation("no-expand-written-text-not-loadable", case, f"{type(ex).__name__}: {str(ex)[:300]}", None)
+                        back = None
+                    if back is not None:
+                        from .. import reader
+                        toks = [t for t in reader.scan(out_text, keep_comments=False)]
+                        written = [reader.string_content(toks[i + 1]) for i, t in enumerate(toks[:-1])
+                                   if t.kind == "word" and t.text == "INCLUDE" and toks[i + 1].kind in ("dq", "sq")]
+                        if written != names:
+                            res.violation("no-expand-directive-not-written-back", dict(case, out=out_text[:3000]), written, names)
+                        else:
+                            import collections
+                            from .. import relations
+                            diff = relations.roundtrip_equiv(d, back, collections.Counter())
+                            if diff:  # (letter case of enumerated words and numeric strings aside: C01's allowed differences)
+                                res.violation("no-expand-written-text-loads-differently", dict(case, out=out_text[:3000]), diff, None)
         # missing file
         if depth >= 1 and depth <= 5 and j % 3 == 0:
             victim = r.choice(files[1:])
